@@ -10,12 +10,12 @@ SHARDS = {"quick": 4, "thorough": 16}
 TIMEOUT = {"quick": 900, "thorough": 3000}
 MIN_EVALUATIONS = {"quick": 8000, "thorough": 8000}  # fewer oracle evaluations than this means the workload collapsed: inconclusive
 RULE = ("addresses generated from the data-file grammar: N/B/F/L word form, /bit form, S: and I:/O: forms (with .word), Bf/n for EVERY n in "
-        "0..4095, {count} within one packet, T/C .PRE/.ACC/.EN/.TT/.DN/.CU/.CD/.OV/.UN/.UA reads; file numbers incl. 1 and 255, elements incl. 0, "
+        "0..4095, {count} within one packet (reads up to 118 words / 59 floats: reply frames on both sides of the transport's 256-byte receive), T/C .PRE/.ACC/.EN/.TT/.DN/.CU/.CD/.OV/.UN/.UA reads; file numbers incl. 1 and 255, elements incl. 0, "
         "254 and 255 (which need the FF escape), upper/lower case; random prior data tables; 2..4 addresses in one read() call (bits of different words of one I/O element, several bits of one word, a word and its bits, unrelated addresses); reads are compared with the data table, the PCCC "
         "command the reference target received (file, type, element, sub-element, size, mask) with what the address denotes; writes (word, "
         "{count}, bit forms; values over the element type) are followed by a diff of the whole data table (only the addressed bit/words may "
-        "change) and a read-back; malformed addresses (unknown file letter, file 0/256+, element 256+, bit 16+, Bf/4096+) must raise "
-        "RequestError; addresses of files the data table does not hold (absent, other type, shorter than the element) and any non-zero PCCC status byte forced on a valid request must "
+        "change) and a read-back; malformed addresses (unknown file letter, file 0/256+, element 256+, bit 16+, Bf/4096+), alone or first / in the middle / last "
+        "among valid addresses of one read() / write(), must raise RequestError; addresses of files the data table does not hold (absent, other type, shorter than the element) and any non-zero PCCC status byte forced on a valid request must "
         "give a falsy Tag with a status text and change nothing; writes of values the element type cannot hold or of fewer values than {count} "
         "may neither report success nor change the table. distinct = (form, file type, element class, bit, op) evaluated")
 ASSUMPTIONS = [
